@@ -277,7 +277,7 @@ def gen_plan(rng, tier):
     constructed = [False] * nslots
     nfile = 0
     ops = []
-    nops = rng.randrange(6, 15)
+    nops = rng.randrange(6, 17) if tier == "quick" else rng.randrange(6, 25)
     while len(ops) < nops:
         i = rng.randrange(nslots)
         r = rng.random()
